@@ -121,7 +121,7 @@ theorem call_rcu_completion_wake_up_refines (fuel : Nat) (env : Env) (inp : List
   obtain ⟨out, h, hp⟩ := src_call_rcu_completion_wake_up fuel env inp C hc hr
   exact ⟨out, h, hp.refines _ _ _ (fun s l s' hs => by simp [runA, hs])⟩
 
-/-! ## 4. defer thread futex (waker side) -/
+/-! ## 4. defer thread futex -/
 
 /-- `wake_up_defer()` ⊑ owner `i` of `Defer/ConcWake.lean` from L2 pc `k1` (back to `k0`) -/
 theorem wake_up_defer_refines (fuel : Nat) (env : Env) (inp : List Val) (hr : WakeRetOk inp) :
@@ -129,6 +129,30 @@ theorem wake_up_defer_refines (fuel : Nat) (env : Env) (inp : List Val) (hr : Wa
       WakerRefines dfF "futex_noasync" Df.kstep Df.kMap Df.gk2l env out := by
   obtain ⟨out, h, hp⟩ := src_wake_up_defer fuel env inp hr
   exact ⟨out, h, hp.refines _ _ _ Df.simK⟩
+
+/-- `wait_defer()` ⊑ the defer thread `D` of `Defer/ConcWake.lean` (`decFirst = true`: the code), one round from L2 pc
+`d0` back to `d0`; abstraction `absEvD`, local automaton `Df.xstep` = `Df.lstep` + the composite step `scan f` for the
+queue scan made inside the external `rcu_defer_num_callbacks()` (`df_scan_sound` below); contract `evOkD`
+(`errno ∈ {EAGAIN, EINTR}`, futex word integer, `defer_thread_stop` reads 0 – the exit path is not covered) -/
+theorem wait_defer_refines (c : DeferWake.Cfg) (hc : c.decFirst = true) (f0 : Bool) (fuel : Nat) (env : Env)
+    (inp : List Val) :
+    ∃ out, exec fuel Gen.Src.«wait_defer» env inp = .ok out ∧
+      (∀ l, l ≠ dfF → out.env.priv l = env.priv l) ∧
+      (out.events.all evOkD = true →
+        ∃ labs ws', labelsOf absEvD out.events = some labs ∧ runA (Df.xstep c) ⟨.d0, f0⟩ labs = some ws' ∧
+          ((out.ctl = .fuel ∧ ws'.dpc = .dwloop) ∨ out.ctl = .blocked ∨
+           ((out.ctl = .normal ∨ out.ctl = .ret none) ∧ ws'.dpc = .d0))) := by
+  obtain ⟨out, h, h1, h2⟩ := src_wait_defer c hc f0 fuel env inp
+  refine ⟨out, h, h1, fun hok => ?_⟩
+  obtain ⟨ws', hw, hp⟩ := h2 hok
+  obtain ⟨labs, ha, hb⟩ := (accept_iff _ _ _ _ _).1 hw
+  exact ⟨labs, ws', ha, hb, hp⟩
+
+/-- the composite step `scan f`: every L2 run of `dScanQ` labels (the loads made inside `rcu_defer_num_callbacks()`) acts
+on `D`'s projection like `scan f` with `f` = L2's `found` afterwards -/
+theorem df_scan_sound (c : DeferWake.Cfg) (is : List Nat) (s s' : DeferWake.State) (hpc : s.dpc = .dscan)
+    (hr : DeferWake.run c s (is.map .dScanQ) = some s') :
+    Df.xstep c (Df.projW s) (.scan s'.found) = some (Df.projW s') := Df.scan_sound c is s s' hpc hr
 
 /-! ## 5. work queue futex (against the generic automata; the `Wq` model section is `Src/WqRefine.lean`'s) -/
 
@@ -337,6 +361,18 @@ example : (exec 2 Gen.Src.«futex_wait» envFx [.int (-1), .int (-1), .int 11]).
 example := futex_wait_refines 2 envFx [.int (-1), .int (-1), .int 11] (.field (.obj 5) "futex") rfl
 example := futex_wake_up_refines 0 envFx [.int (-1), .int 1] (.field (.obj 5) "futex") rfl
   (by intro v r rest h; cases h; exact ⟨1, by decide, rfl⟩)
+
+/-- `wait_defer()`: queues empty → sleeps, woken, sees 0; and queues non-empty → resets the futex -/
+example : (exec 2 Gen.Src.«wait_defer» Env.empty [.int (-1), .int 0, .int 0, .int (-1), .int 0, .int 0]).toOption.map
+      (fun o => (o.events.length, o.ctl, labelsOf absEvD o.events)) =
+    some (8, .normal, some [.l .dDec, .scan false, .l (.dScanEnd false), .l (.dLoad (-1)), .l .dWaitSleep, .l .woken,
+      .l (.dLoad 0)]) := by decide
+example : runA (Df.xstep {n := 1}) ⟨.d0, true⟩ [.l .dDec, .scan false, .l (.dScanEnd false), .l (.dLoad (-1)),
+    .l .dWaitSleep, .l .woken, .l (.dLoad 0)] = some ⟨.d0, false⟩ := by decide
+example : (exec 2 Gen.Src.«wait_defer» Env.empty [.int (-1), .int 0, .int 3]).toOption.map
+      (fun o => (o.events.length, o.ctl, labelsOf absEvD o.events)) =
+    some (6, .normal, some [.l .dDec, .scan true, .l (.dScanEnd true), .l .dStore0]) := by decide
+example := wait_defer_refines {n := 1} rfl true 2 Env.empty [.int (-1), .int 0, .int 0, .int (-1), .int 0, .int 0]
 
 /-- the projection lemmas are not vacuous: real L2 steps of the waiter of `Handshake/Tso.lean` up to its sleep, and the
 wake-up by waker 0 -/
